@@ -211,6 +211,14 @@ type byteBlock struct {
 func (b byteBlock) Begin() model.Addr { return b.begin }
 func (b byteBlock) Bytes() []byte     { return b.bytes }
 
+// SkipInstruction moves both machines to the instruction after the current one without
+// executing it (what a user does with the instruction pointer after a step was refused).
+func (m *Machine) SkipInstruction() {
+	next := m.Ref.PC + 4
+	m.State.Regs.Store(expr.IPKey, expr.ConstFromUint(next), 8)
+	m.Ref.PC = next
+}
+
 // Diff is a mismatch between emulator and reference.
 type Diff struct {
 	Class string // short class for signatures
